@@ -325,6 +325,11 @@ def run(ck: core.Check):
                     ok = m["res"].get("err") == got[1]
                 if ok and "names" in m:
                     ok = m["names"] == names_after
+                if m.get("noclash") is False:
+                    # the side condition of the *_noclash theorems fails exactly on the known-finding witnesses
+                    stats["noclash_false"] = stats.get("noclash_false", 0) + 1
+                    if not (lf.preset_clash(prog, dict(req, drop=True)) or lf.preset_output_clash(prog, req)):
+                        ck.broken("correspondence", "C03 driver reports NoClash = false on a request without a preset-name clash", str(req)[:300])
                 if m.get("wf") is not True and "error" not in m:
                     ck.broken("correspondence", "C03 generated program violates the model's WF hypothesis (wfb = false)", str(lf.to_objs(prog))[:600])
                 if not ok:
